@@ -13,7 +13,11 @@ CONSTANTS C04Pairs, C07Bases
 SiteOf(p) == p \div 512
 RowOf(p) == p % 512
 
+\* strace makes the child a tracee: ptrace combinations can not run under it, and the self-SIGSTOP of
+\* a pid-namespace init is then NOT ignored, so every stop-before-sync combination hangs there
+NoStrace(o) == o.ptrace \/ (o.stop /\ o.sync /\ ~PS(o))
 C04Cases == { [s |-> SiteOf(p), r |-> RowOf(p), opt |-> MkOpt(SiteOf(p), RowOf(p)), hang |-> HangCombo(MkOpt(SiteOf(p), RowOf(p))),
+               nostrace |-> NoStrace(MkOpt(SiteOf(p), RowOf(p))),
                fail |-> "none", idx |-> 0, cb |-> "ok"] : p \in C04Pairs }
 
 \* failure points with a real-input recipe (harness/cmd/launch/c07.go) and what the recipe needs
